@@ -634,6 +634,39 @@ def F41():
         _time.tzset()
 
 
+def F42():
+    from collections.abc import Mapping
+
+    class M(Mapping):
+        def __init__(self, d):
+            self._d = dict(d)
+
+        def __getitem__(self, k):
+            return self._d[k]
+
+        def __iter__(self):
+            return iter(self._d)
+
+        def __len__(self):
+            return len(self._d)
+    db = TinyFlux(storage=MemoryStorage)
+    db.insert(Point(time=t(0), tags={"a": "b"}, fields={"x": 1}))
+    db.insert(Point(time=t(1), tags=M({"a": "b"}), fields={"x": 2}))
+    c = [0]
+
+    def f(fields):
+        c[0] += 1
+        return {"x": 5} if c[0] == 1 else {"x": "bad"}
+    raised = None
+    try:
+        db.update(TagQuery().a == "b", fields=f)
+    except Exception as e:  # noqa
+        raised = type(e).__name__
+    held = [dict(p.fields) for p in db.all()]
+    if raised != "ValueError" or held != [{"x": 1}, {"x": 2}]:
+        return f"an update rejected at the second point (whose tag set is a Mapping that is no dict) raised {raised} and left the fields {held}"
+
+
 ALL = [k for k in list(globals()) if re.fullmatch(r"F\d+[a-c]?", k)]
 
 if __name__ == "__main__":
